@@ -98,6 +98,38 @@ For each change i = 1, 2:
 If the unmodified tree already violates the property in the situation you target, pick another situation (and mention what you saw in the
 note). At the end the worktree must have no tracked modifications. Report in a few lines what the two changes are.
 """
+    elif int(rnd) >= 9:
+        body = f"""
+YOUR TASK: produce THREE *behaviour-preserving additions* to the code this property is anchored in - changes a careful maintainer could
+make, after which the property STILL HOLDS and the program computes exactly the same results for every input. They are used to find out
+whether a checker raises false alarms on correct code, so they must be genuinely correct. This time they ADD code rather than rearrange
+it - each of a different kind from this list:
+  - a CORRECT optimisation: a cache / memo that is keyed by everything the cached value depends on and lives exactly as long as it is
+    valid (per object, per call, per chromosome task), a fast path that is taken only when it provably gives the same result as the
+    general path, a value hoisted out of a loop, a cheaper container where multiplicity and order do not matter, lazy evaluation;
+  - a CORRECT robustness / feature addition that leaves every existing behaviour unchanged: an extra validation that only fires on
+    input the program rejected anyway, a defensive check with a clear error message, an additional hidden option whose default reproduces
+    the current behaviour exactly (and which the demo does not set), extra debug logging or counters that are not written to any output
+    file, a helper that several call sites now share;
+  - a CORRECT generalisation: a function gains a parameter with a default that all existing callers rely on, a constant becomes a
+    named class attribute, a literal table is built from a loop that produces the identical table, a context manager replaces an
+    explicit open/close pair.
+Put the additions where the property's mechanisms live (the functions named in the anchors above, and their callers / callees).
+Each should be 8-40 changed lines and realistic.
+
+For each addition i = 1..3:
+  1. make the edit in {wt}; run the test suite: exactly "9 failed, 386 passed";
+  2. convince yourself the behaviour is unchanged: run the real pipeline before and after with several option sets that reach the touched
+     code (e.g. --read_group file_name, --count_exons, --high_memory, --sqanti_output, --check_canonical, no --genedb, -t 2, --resume after a
+     run, two experiments in one YAML, other --matching_strategy / --splice_correction_strategy / --model_construction_strategy values) and
+     compare all output files byte for byte (except lines with the command line / time stamps / paths), and/or call the touched functions
+     directly on many inputs, including the edge cases the addition is about (e.g. for a cache: two objects / chromosomes / strands with
+     equal keys);
+  3. save `git diff` to {wt}/seed_out/refactor<i>.diff and a short {wt}/seed_out/refactor<i>.txt (what was added, why behaviour cannot
+     change), then `git checkout -- .` (each diff must apply to the unmodified tree on its own).
+If an intended addition turns out to change behaviour, drop it and make another one. At the end the worktree must have no tracked
+modifications. Do not use `git stash`. Report in a few lines what the three additions are.
+"""
     else:
         body = f"""
 YOUR TASK: produce FOUR *behaviour-preserving refactorings* of the code this property is anchored in - changes a careful maintainer could
